@@ -339,6 +339,12 @@ def downs (prev : Bool) : List Bool → Nat
 @[simp] theorem setAuthority_stash (o : Obj) (b : Bool) : (setAuthority o b).stash = o.stash := by
   unfold setAuthority; split <;> (try split) <;> rfl
 
+@[simp] theorem setAuthority_reqs (o : Obj) (b : Bool) : (setAuthority o b).reqs = o.reqs := by
+  unfold setAuthority; split <;> (try split) <;> rfl
+
+@[simp] theorem applyVerdict_reqs (c : ObjCfg) (o : Obj) (v : Verdict) : (applyVerdict c o v).reqs = o.reqs := by
+  unfold applyVerdict; split <;> (try split) <;> simp
+
 @[simp] theorem applyVerdict_execs (c : ObjCfg) (o : Obj) (v : Verdict) : (applyVerdict c o v).execs = o.execs := by
   unfold applyVerdict; split <;> (try split) <;> simp
 
@@ -351,8 +357,14 @@ theorem applyVerdict_bound (c : ObjCfg) (o : Obj) (v : Verdict) (n : Nat) (h : o
 theorem fresh_work (c : ObjCfg) : (fresh c).execs = 0 ∧ (fresh c).stash = 0 := by
   unfold fresh; split <;> simp
 
+@[simp] theorem fresh_reqs (c : ObjCfg) : (fresh c).reqs = 0 := by
+  unfold fresh; split <;> simp
+
 theorem freshLike_restart (c : ObjCfg) (old : Obj) (keep : Bool) : freshLike c (restart c old keep) = true := by
   simp [freshLike, restart, (fresh_work c).1]
+
+theorem freshLike_created (c : ObjCfg) : freshLike c (created c) = true := by
+  simp [freshLike, created, (fresh_work c).1]
 
 theorem relHalf_sees {sh : SpecHalf} {h : Half} (hr : sh.conns = h.conns) : sh.sees = h.sees := by
   simp [SpecHalf.sees, Half.sees, hr]
@@ -369,7 +381,7 @@ theorem requestObj_props (u : Bool) (c : ObjCfg) (o : Obj) :
     sameAuth o (requestObj u c o) = true ∧ o.execs ≤ (requestObj u c o).execs ∧
     (requestObj u c o).execs + (requestObj u c o).stash ≤ o.execs + o.stash + 1 ∧
     (o.paused = true → (requestObj u c o).execs = o.execs) ∧
-    (c.kind = .other → requestObj u c o = o) := by
+    (c.kind = .other → requestObj u c o = o) ∧ (requestObj u c o).reqs = o.reqs := by
   unfold requestObj sameAuth
   cases hk : c.kind <;> cases u <;> cases hp : o.paused <;> simp [hp] <;> (try split) <;> (try simp) <;> (try omega)
 
@@ -378,7 +390,7 @@ theorem ntimerObj_props (u ep : Bool) (c : ObjCfg) (o : Obj) :
     sameAuth o (ntimerObj u ep c o) = true ∧ o.execs ≤ (ntimerObj u ep c o).execs ∧
     (ntimerObj u ep c o).execs + (ntimerObj u ep c o).stash ≤ o.execs + o.stash ∧
     (ep = true → o.paused = true → (ntimerObj u ep c o).execs = o.execs) ∧
-    (c.kind = .other → ntimerObj u ep c o = o) := by
+    (c.kind = .other → ntimerObj u ep c o = o) ∧ (ntimerObj u ep c o).reqs = o.reqs := by
   unfold ntimerObj sameAuth
   cases hk : c.kind <;> cases ha : c.active <;> cases u <;> cases ep <;> cases hp : o.paused <;> simp [hp]
 
@@ -388,14 +400,16 @@ theorem dueObj_props (c : ObjCfg) (o : Obj) :
     (dueObj c o).execs + (dueObj c o).stash ≤ o.execs + o.stash + 1 ∧
     (o.paused = true → (dueObj c o).execs = o.execs) ∧
     (c.kind = .other → dueObj c o = o) ∧
-    (c.kind = .checkable → c.active = true → o.paused = false → (dueObj c o).execs = o.execs + 1) := by
+    (c.kind = .checkable → c.active = true → o.paused = false → (dueObj c o).execs = o.execs + 1) ∧
+    (dueObj c o).reqs = o.reqs := by
   unfold dueObj sameAuth
   cases hk : c.kind <;> cases ha : c.active <;> cases hp : o.paused <;> simp [hp] <;> (try omega)
 
 /-- `checkWork` passes when the new object state has the properties above. -/
 theorem checkWork_ok (c : ObjCfg) (sh sh' : SpecHalf) (silent : Bool) (o o' : Obj)
     (hprev : sh.prev = o) (h1 : sameAuth o o' = true) (h2 : o.execs ≤ o'.execs) (h3 : o'.execs ≤ sh'.asked)
-    (h4 : silent = true → o.paused = true → o'.execs = o.execs) (h5 : c.kind = .other → o' = o) :
+    (h4 : silent = true → o.paused = true → o'.execs = o.execs) (h5 : c.kind = .other → o' = o)
+    (h6 : o'.reqs = o.reqs) :
     checkWork c sh sh' silent o' = none := by
   unfold checkWork
   rw [hprev]
@@ -408,7 +422,7 @@ theorem checkWork_ok (c : ObjCfg) (sh sh' : SpecHalf) (silent : Bool) (o o' : Ob
   have e4 : (c.kind == .other && (o'.execs != o.execs)) = false := by
     cases hk : c.kind <;> simp
     rw [h5 hk]
-  simp only [e1, e2, e3, e4]
+  simp only [e1, e2, e3, e4, h6]
   simp
 
 /-- How the specification's bookkeeping relates to one side of the model. -/
@@ -456,26 +470,46 @@ theorem half_step (l : Layout) (nA nB : Name) (hne : nA ≠ nB) (c : ObjCfg) (s 
   obtain ⟨hsees, hstart, hprev, hpaired, halone, hev, hbound⟩ := hr
   cases e with
   | request s' =>
-    obtain ⟨p1, p2, p3, p4, p5⟩ := requestObj_props h.updated c h.obj
+    obtain ⟨p1, p2, p3, p4, p5, p7⟩ := requestObj_props h.updated c h.obj
     simp only [stepHalf]
     refine ⟨?_, work_step c _ sh h hr0 _ 1 p1 (by omega)⟩
-    exact checkWork_ok c sh _ true h.obj _ hprev p1 p2 (by simp only [specHalfNext]; omega) (fun _ => p4) p5
+    exact checkWork_ok c sh _ true h.obj _ hprev p1 p2 (by simp only [specHalfNext]; omega) (fun _ => p4) p5 p7
   | ntimer s' =>
-    obtain ⟨p1, p2, p3, p4, p5⟩ := ntimerObj_props h.updated (l != .noZone) c h.obj
+    obtain ⟨p1, p2, p3, p4, p5, p7⟩ := ntimerObj_props h.updated (l != .noZone) c h.obj
     simp only [stepHalf]
     refine ⟨?_, ?_⟩
-    · exact checkWork_ok c sh _ (l != .noZone) h.obj _ hprev p1 p2 (by simp only [specHalfNext]; omega) p4 p5
+    · exact checkWork_ok c sh _ (l != .noZone) h.obj _ hprev p1 p2 (by simp only [specHalfNext]; omega) p4 p5 p7
     · have := work_step c _ sh h hr0 _ 0 p1 (by omega)
       simpa [specHalfNext, stepHalf] using this
   | due s' =>
-    obtain ⟨p1, p2, p3, p4, p5, p6⟩ := dueObj_props c h.obj
+    obtain ⟨p1, p2, p3, p4, p5, p6, p7⟩ := dueObj_props c h.obj
     simp only [stepHalf]
     refine ⟨?_, work_step c _ sh h hr0 _ 1 p1 (by omega)⟩
     have hw := checkWork_ok c sh (specHalfNext l sh (.due s') (dueObj c h.obj)) true h.obj _ hprev p1 p2
-      (by simp only [specHalfNext]; omega) (fun _ => p4) p5
+      (by simp only [specHalfNext]; omega) (fun _ => p4) p5 p7
     simp only [checkOwn, hw, hprev]
     cases hk : c.kind <;> cases ha : c.active <;> cases hp : h.obj.paused <;> simp
     exact p6 hk ha hp
+  | fire s' =>
+    have hf : sameAuth h.obj (fireObj c h.obj) = true ∧ (fireObj c h.obj).execs = h.obj.execs ∧
+        (fireObj c h.obj).stash = h.obj.stash := by
+      unfold fireObj sameAuth; split <;> simp
+    simp only [stepHalf]
+    refine ⟨?_, ?_⟩
+    · simp only [checkOwn, checkFire, hprev]
+      unfold fireObj sameAuth
+      cases hk : c.kind <;> cases ha : c.active <;> cases hp : h.obj.paused <;> simp [hp]
+    · have := work_step c _ sh h hr0 _ 0 hf.1 (by rw [hf.2.1, hf.2.2]; omega)
+      simpa [specHalfNext, stepHalf] using this
+  | create s' =>
+    have hw := fresh_work c
+    refine ⟨by simp [stepHalf, checkOwn, freshLike_created], ⟨hsees, hstart, rfl, ?_, ?_, ?_, ?_⟩⟩
+    · intro _ hm; simp [specHalfNext] at hm
+    · intro _ hm; simp [specHalfNext] at hm
+    · intro ha hr
+      have := fresh_paused_runEverywhere c ha hr
+      simpa [stepHalf, created] using this
+    · simp [stepHalf, specHalfNext, created, hw.1, hw.2]
   | boot s' start keep =>
     have hw := fresh_work c
     refine ⟨by simp [stepHalf, checkOwn, freshLike_restart], ⟨rfl, rfl, rfl, ?_, ?_, ?_, ?_⟩⟩
@@ -651,5 +685,22 @@ theorem trace_rel (l : Layout) (nA nB : Name) (hne : nA ≠ nB) (c : ObjCfg) :
     simp only at h1 h2
     subst h1
     exact trace_rel l nA nB hne c es sp' _ h2
+
+/-! ### events addressed to one object of a node -/
+
+theorem atList_getElem (f : ObjCfg → Obj → Obj) (i : Nat) : ∀ (cfgs : List ObjCfg) (k : Nat) (objs : List Obj) (j : Nat) (c : ObjCfg) (o : Obj),
+    cfgs[j]? = some c → objs[j]? = some o →
+    (atList f i k cfgs objs)[j]? = some (if k + j == i then f c o else o)
+  | [], _, _, j, _, _, hc, _ => by simp at hc
+  | _ :: _, _, [], j, _, _, _, ho => by simp at ho
+  | c0 :: cs, k, o0 :: os, 0, c, o, hc, ho => by
+    simp at hc ho; subst hc; subst ho; simp [atList]
+  | c0 :: cs, k, o0 :: os, j + 1, c, o, hc, ho => by
+    simp at hc ho
+    have := atList_getElem f i cs (k + 1) os j c o hc ho
+    simp only [atList, List.getElem?_cons_succ, this]
+    have : k + 1 + j = k + (j + 1) := by omega
+    rw [this]
+
 
 end Icinga.C10
